@@ -150,6 +150,12 @@ CLAIMED = {
          "working tree by executing the scripts of csg/share/scripts/inverse (no translator for Perl: the models are written by hand).",
          "Lean kernel + three standard axioms; Perl arithmetic/formatting external; table_extrapolate.pl, csg_call, csg_table not covered.",
          "6/C19"),
+ "C09": ("Lean 4 proof of the solver's status logic only + exact per-run certificates (rational arithmetic: residuals, orthonormality, LDL^T inertia counts) on "
+         "the output of the real DavidsonSolver; PARTIAL by construction",
+         "success_iff_all_converged, noconv_reports, unconverged_zeroed, converged_kept hold for all residual vectors; whether a successful run returned the "
+         "LOWEST eigenvalues is not a theorem of the algorithm and is decided per run by the inertia certificate on generated spectra and option combinations.",
+         "Lean kernel + three standard axioms; Sylvester's law of inertia assumed (not formalised); numerics external; one recorded finding (block-decoupled matrices).",
+         "6/C09"),
 }
 REASONS = {}
 
